@@ -77,11 +77,17 @@ def main():
     if a.only:
         ids = [i for i in ids if i in a.only.split(",")]
     missed = 0
+    outside = 0
     rows = []
     with cf.ThreadPoolExecutor(a.j) as ex:
         for o in ex.map(lambda i: one(i, a.tier, a.confirm), ids):
             own = o.get("checks", {}).get(o["property"], o.get("error", "?"))
-            missed += not str(own).startswith("caught")
+            meta_o = json.load(open(os.path.join(HERE, "seeded", o["id"], "meta.json")))
+            if meta_o.get("why_silent") and not str(own).startswith("caught"):
+                o["why_silent"] = meta_o["why_silent"][:120] + "..."
+                outside += 1
+            else:
+                missed += not str(own).startswith("caught")
             print(json.dumps(o), flush=True)
             rows.append(o)
     if a.table:
@@ -97,9 +103,12 @@ def main():
                 conf = ("%s / %s / %s | " % (o.get("tests", "?"), o.get("demo_without"), o.get("demo_with"))) if a.confirm else ""
                 res = "; ".join("%s %s" % (k, v.replace("caught:", "`").replace(",", "`, `") + ("`" if v.startswith("caught:") else ""))
                                 for k, v in o.get("checks", {}).items()) or o.get("error", "?")
+                if meta.get("why_silent"):
+                    res += " - SILENT ON PURPOSE: " + meta["why_silent"].replace("|", "/")
                 f.write("| %s | %s | %s | %s | %s%s |\n" % (o["id"], meta.get("round", 1),
                         meta.get("what", "").replace("|", "/"), meta.get("needs_to_manifest", "").replace("|", "/"), conf, res))
-    print("%d seeded changes, %d not caught by the owning check" % (len(ids), missed))
+    print("%d seeded changes, %d not caught by the owning check%s" % (
+        len(ids), missed, (" (+%d silent for a recorded reason, see meta.json why_silent)" % outside) if outside else ""))
     return 0
 if __name__ == "__main__":
     sys.exit(main())
